@@ -23,8 +23,8 @@ RULE = (
     "directory with two data directories, two keepers + one loader}, a small PipeLang pipeline (+ one edit), object cache on/off. "
     "Each process = store creation + evaluation (+ loads) under the proxy (every os.* / open / raw read / half write / close is "
     "one step). Schedules: Hypothesis lists of ints (one step of runnable[x % n] each), and for two-process scenarios every "
-    "schedule 'A runs i steps, B runs j steps, A finishes, B finishes' and its mirror on a stride (quick) or completely "
-    "(thorough). Checked per schedule: no process raises (a loader may get the documented missing-path DDSException only for "
+    "schedule 'A runs i steps, B runs j steps, A finishes, B finishes' and its mirror on a stride (quick: ~40 per scenario; "
+    "thorough: complete up to 1200 per scenario). Checked per schedule: no process raises (a loader may get the documented missing-path DDSException only for "
     "a path never committed before), every evaluation returns its model value, every load returns the old or the new complete "
     "value, then an observer and a final evaluating process see complete / correct values for every path. Non-trivial = the "
     "schedule preempts a process between a stat (exists / isdir / realpath) and its following mutating operation; distinct by (scenario, schedule)."
@@ -222,7 +222,8 @@ def check_scenario(sc, ev=None, scratch=None, tier="quick"):
         if len(nops) == 2:
             na, nb = nops
             pairs = [(a, i, j) for a in (0, 1) for i in range(1, (na if a == 0 else nb)) for j in range(1, (nb if a == 0 else na) + 1)]
-            stride = 1 if tier == "thorough" else max(1, len(pairs) // 40)
+            # quick: ~40 schedules of the family per scenario; thorough: all of them up to 1200 (then strided)
+            stride = max(1, len(pairs) // (1200 if tier == "thorough" else 40))
             off = sc["sys_seed"] % stride
             for (a, i, j) in pairs[off::stride]:
                 d = ["preempt", a, i, j]
@@ -256,7 +257,7 @@ def shard(idx, n, tier, seed, count):
 
 
 def run(tier, seed, scale=1.0):
-    count = int((2 if tier == "quick" else 12) * scale)
+    count = int((2 if tier == "quick" else 8) * scale)
     return common.run_shards(shard, 16, tier=tier, seed=seed, count=count)
 
 
